@@ -29,17 +29,17 @@ claims = {
          "Assumed: fmt.Sprintf %s semantics for the two String() methods (trusted contracts); MarshalJSON emits one member per element of order (loop shape read, byte-level JSON is encoding/json's). UTF-8/JSON well-formedness and compact == indented are not claimed.",
          "contract-based deductive verification + SMT string lemmas", "DESIGN.md 4.C09"),
  "C11": ("proof",
-         "Partial claim: local rejection contracts, each of the shape 'condition on the pre-state implies an error and every heap location unchanged': duplicate tag / server / macro, second JSIGHT / INFO / Title / Version / Description-of-info, macro without name or without body, PASTE of an undefined macro.",
+         "Partial claim: local rejection contracts, each of the shape 'condition on the pre-state implies an error and every heap location unchanged': duplicate tag / server / macro / user enum / user type, second JSIGHT / INFO / Title / Version / Description-of-info, macro without name or without body, PASTE of an undefined macro; every successful PASTE collects the ENUM rules of the pasted macro again (ghost call counter), so an enum declared twice through PASTE reaches the duplicate check.",
          "The remaining adders of setters.go / build_catalog_directives.go (interactions, types, enums, paths) are not yet under contract; 'one injected fault always causes rejection' end-to-end is not claimed.",
          "contract-based deductive verification: conditional frame postconditions (unchanged())", "DESIGN.md 4.C11"),
  "C07": ("proof",
-         "Partial claim: addMacro rejects a macro without name, without body, or with a duplicate name and leaves the macro table unchanged; processPasteDirective rejects an undefined macro; the replay pass never changes the parent of a pre-existing directive. Mutual recursion of macros (a crash before) is repaired by a fix: commit; its termination argument is not machine-checked.",
+         "Partial claim: addMacro rejects a macro without name, without body, or with a duplicate name and leaves the macro table unchanged; processPasteDirective rejects an undefined macro; the replay pass never changes the parent of a pre-existing directive; discipline of the macro cycle search (each search starts from an empty visited set, the target is never marked, the set only grows). Mutual recursion of macros (a crash before) is repaired by a fix: commit; completeness of the depth-first search and termination are not machine-checked.",
          "Not claimed: 'paste == inlining', 'unused macro contributes nothing' (two runs); termination of the macro expansion (the cycle check is a graph search that is not under a functional contract).",
          "contract-based deductive verification", "DESIGN.md 4.C07"),
- "C13": ("exploration",
-         "BOUNDED stand-in (not a proof): the real pathParameters/PathParameters are executed on every path over {/, {, }, a, b} up to length 7 (thorough: 9) and compared with the declarative split; no panic, empty/repeated names rejected.",
-         "Bounded by alphabet and length (stated in evidence coverage.rule). Project-wide binding of Path properties to interactions is not claimed.",
-         "bounded exhaustive execution of the real functions against an executable contract (stand-in for a string-theory proof)", "DESIGN.md 4.C13"),
+ "C13": ("proof",
+         "Proof (binding): for every HTTP interaction the binding step BuildResourceMethodsPathVariables$1 lists exactly those {name} segments of its path for which a property is declared at that prefix, in path order, each with the declared schema object (cnt-indexed filter specification over the path parameters; newPathVariables keeps number and order); an interaction without declared parameters keeps none. BOUNDED stand-in (labelled in evidence.coverage.bounded): the real pathParameters/PathParameters are executed on every path over {/, {, }, a, b} up to length 7 (thorough: 9) and compared with the declarative split; no panic, empty/repeated names rejected.",
+         "Assumed: pathParameters is a pure function of the path text (its split semantics is the bounded part); Interaction.Path() is a pure function of the interaction; collectUsedUserTypes only adds to the given set (trusted frame). Not claimed: the rejection rules of the first half of BuildResourceMethodsPathVariables (duplicate declaration, unused property) and the property names written into the shared schema nodes.",
+         "contract-based deductive verification (loop invariant over a contract-local counting function) + bounded exhaustive execution for the path split", "DESIGN.md 4.C13"),
  "C15": ("proof",
          "Proof: addDescription accepts a description only if the normalised text is non-empty (blank descriptions are rejected in either spelling; the normaliser is an assumed pure function there). BOUNDED stand-in (labelled in evidence.coverage.bounded): the real core.description and catalog.Annotation are executed on every text over a 7-symbol alphabet up to length 6 (thorough: 8): idempotence, shape of the result, bare == parenthesised, Annotation normal form.",
          "Bounded by alphabet and length; one known finding class (idempotence when the result is itself parenthesised).",
@@ -49,19 +49,19 @@ claims = {
          "Assumed: sync.RWMutex gives mutual exclusion; *regexp.Regexp is safe for concurrent use. Not claimed: data-race freedom of whole parses and equality of concurrent vs solo results (schedules); callback-taking methods (Each, Map, Update, Find) are not verified (unknown callback frames).",
          "contract-based deductive verification (mutex as permission ghost state) + SSA frame scan of global stores", "DESIGN.md 4.C16"),
  "C17": ("proof",
-         "Proof: safety and frame of directive.unescapeParameter (single pass), quoted-parameter scanner states under the step-function contract. BOUNDED stand-in: unescape(quote(x)) == x and unescape(x) == x for quote-free x, for every x over {\\, \", a, space, #, /, tab} up to length 5 (thorough: 6) on the real function.",
+         "Proof: safety and frame of directive.unescapeParameter (single pass), quoted-parameter scanner states under the step-function contract; the scanner's look-ahead helpers classify a parameter through its UNQUOTED value only (brackets trimmed after unquoting), so a quoted parameter selects the same body state as the bare one. BOUNDED stand-in: unescape(quote(x)) == x and unescape(x) == x for quote-free x, for every x over {\\, \", a, space, #, /, tab} up to length 5 (thorough: 6) on the real function.",
          "Round trip is bounded (labelled so in evidence.coverage.bounded); the scanner/normaliser agreement end-to-end is not claimed.",
          "contract-based deductive verification + bounded exhaustive execution for the round trip", "DESIGN.md 4.C17"),
  "C19": ("proof",
-         "Proof: a declared tag's title is its annotation or, lacking one, its name (AddTag, collectTag, NewTag); a path tag reuses the tag already registered under its name. BOUNDED stand-in (labelled in evidence.coverage.bounded): tagName(pathTagTitle(p)) is injective on first path segments over an 8-symbol alphabet up to length 4 (thorough: 5); later segments do not influence the title.",
-         "Bounded by alphabet and length. Tags precedence (explicit Tags, URL Tags, automatic) is not yet under contract.",
-         "bounded exhaustive execution of the real functions", "DESIGN.md 4.C19"),
+         "Proof: a declared tag's title is its annotation or, lacking one, its name (AddTag, collectTag, NewTag); a path tag reuses the tag already registered under its name; precedence of explicit Tags over the URL's Tags over the automatic path tag (setters under contract). BOUNDED stand-in (labelled in evidence.coverage.bounded): tagName(pathTagTitle(p)) is injective on first path segments over an 8-symbol alphabet up to length 4 (thorough: 5); later segments do not influence the title.",
+         "Bounded by alphabet and length for the automatic-name injectivity.",
+         "contract-based deductive verification + bounded exhaustive execution for the name injectivity", "DESIGN.md 4.C19"),
  "C14": ("proof",
          "Scanner invariant (stack, event queue, ghost lexeme typestate) proved inductive over all state functions and Scanner.Next; emitted lexemes have begin <= end+1, end inside the input, events paired; keyword lexemes spell a directive word (spell tables checked per transition); schema/enum body length is the library's (assumed) length.",
          "Assumes the schema library's Len()/Position() bounds (deps.spec); ghost-state definitions of found/foundAt; strict ordering across lexemes is proved at emission (typestate of found/foundAt), not re-proved for the FIFO queue.",
          "contract-based deductive verification: inductive invariant of the scanner state machine as function-type contract, VCs from go/ssa discharged by z3/cvc5", "DESIGN.md 4.C14"),
  "C05": ("proof",
-         "Partial claim, per-state components only. (a) Two-run lemma for each of the 160 scanner state functions and each of the byte pairs LF/CR and space/tab: two runs from the same scanner state that differ only in the byte under the cursor end in the same state (step, return stack, event queue, cursor, open-lexeme typestate) and agree on error / no error - a product VC of the real function with itself, calls abstracted relationally. (b) Line comments: startComment saves the interrupted state; after '#', every byte up to the line end is ignored and nothing but s.step changes, so the saved state is the one that sees the line end (this caught defect F16, repaired by a fix: commit).",
+         "Partial claim, per-state components only. (a) Two-run lemma for each of the 160 scanner state functions and each of the byte pairs LF/CR and space/tab: two runs from the same scanner state that differ only in the byte under the cursor end in the same state (step, return stack, event queue, cursor, open-lexeme typestate) and agree on error / no error - a product VC of the real function with itself, calls abstracted relationally. (b) Comments: startComment saves the interrupted state; after '#', every byte up to the line end is ignored and nothing but s.step changes, so the saved state is the one that sees the line end (this caught defect F16, repaired by a fix: commit); exact transitions of the block-comment sub-machine (### ... ###, the opener's signs are not part of the text, closing pops the saved state). (c) IsStartWithDirective (end of a free text) depends on the line only through 'begins with a response code or a keyword text' - what follows the keyword (blank, tab, CR, LF) plays no part. (d) Quoting: the look-ahead helpers classify a parameter through its unquoted value.",
          "NOT claimed: equality of verdict and catalog of two whole documents under the listed rewritings (comments and blank lines between directives, re-indentation, CRLF, quoting, explicit parentheses) - that relates two complete runs and is outside contracts; the lemmas are necessary conditions for it. Assumed: callees are deterministic functions of their arguments and of the listed receiver fields (the lemma itself for step-function callees; an assumption for helpers).",
          "contract-based deductive verification: two-run (product) VCs of each state function + one-run postconditions, go/ssa, z3/cvc5", "DESIGN.md 4.C05"),
  "C02": ("proof",
